@@ -331,6 +331,15 @@ class DirectObjectAccess:
         return dir(self._obj)
 
     def has_iter(self):
+        if type(self._obj) not in ALLOWED_GETITEM_TYPES:
+            # Don't call a custom `__iter__`, just look it up statically.
+            for name in ('__iter__', '__getitem__'):
+                try:
+                    getattr_static(type(self._obj), name)
+                    return True
+                except AttributeError:
+                    pass
+            return False
         try:
             iter(self._obj)
             return True
